@@ -586,8 +586,10 @@ func (g *Gen) runDefers(fn *ssa.Function, st *State) {
 		}
 		run := st.clone()
 		g.assume(run, flag)
+		delete(run.defers, d) // a deferred call runs once: a panic inside it only runs the earlier defers
 		skip := st.clone()
 		g.assume(skip, not(flag))
+		delete(skip.defers, d)
 		var after *State
 		switch cv := d.Call.Value.(type) {
 		case *ssa.MakeClosure:
